@@ -264,6 +264,49 @@ def keys(ctx, rep, rule):
             rep.check(rule, fn + "|priv-key material", a[2] == p_pkey, "priv_key", "priv key material is %s" % flow.fmt(a[2]), body.loc(), obligation=True)
         else:
             rep.violation(rule, fn + "|priv-key material", "no as_key_type(priv_alg, priv_key, ..)", body.loc())
+        # the privacy key is localised through a digest object of its own: the session's auth key object is never reused for it
+        def _ref_root(op):
+            pl = op.get("move") or op.get("copy")
+            for _ in range(6):
+                if pl is None:
+                    return None
+                l = pl["l"]
+                defs = [st_["rv"] for blk_ in body.live_blocks() for st_ in blk_.stmts if st_["k"] == "assign" and st_["place"]["l"] == l and not st_["place"]["p"]]
+                if len(defs) != 1:
+                    return l
+                rv_ = defs[0]
+                if rv_["k"] == "ref":
+                    if rv_["place"]["p"] and rv_["place"]["p"] != ["deref"]:
+                        return l
+                    pl = {"l": rv_["place"]["l"], "p": []}
+                    if not rv_["place"]["p"]:
+                        return rv_["place"]["l"]
+                elif rv_["k"] == "use":
+                    pl = rv_["op"].get("move") or rv_["op"].get("copy")
+                else:
+                    return l
+            return None
+        if "auth" in roles and "priv" in roles:
+            ra, rp_ = _ref_root(roles["auth"][0].term["args"][0]), _ref_root(roles["priv"][0].term["args"][0])
+            rep.check(rule, fn + "|separate digest objects", ra is not None and rp_ is not None and ra != rp_, "auth and privacy keys use their own AuthKey objects",
+                      "the privacy key is derived on the very AuthKey object that becomes the session's authentication key: messages are then signed with the "
+                      "privacy key", body.loc(roles["priv"][0].term["line"]), obligation=True)
+        # whenever a privacy algorithm is configured its key is derived and installed: no other condition (engine id known,
+        # key non-empty ...) lets the constructor / set_keys succeed with the cipher's default all-zero key
+        hp = [b for b in body.calls() if (callee_path(b.term) or "").endswith("::has_priv")]
+        if hp and "priv" in roles:
+            def evp(t):
+                if t[0] == "call" and (t[1] or "").endswith("::has_priv"):
+                    return 1
+                return None
+            blocks_, _ = cells.feasible(body, prov, evp)
+            inst_ = [b for b in body.calls() if (callee_path(b.term) or "").endswith("SnmpPriv>::as_localized")]
+            oks2 = [b_ for b_ in flow.blocks_assigning_return(body, lambda rv: rv["k"] == "agg" and rv.get("vname") == "Ok") if b_ in blocks_]
+            cut2 = {(b.idx, s_) for b in inst_ for s_ in b.succs()}
+            pth = cells.path_within(body, blocks_, oks2, cut2) if oks2 else None
+            rep.check(rule, fn + "|privacy key always localised", pth is None, "has_priv() implies as_localized(..) before Ok",
+                      "with a privacy algorithm configured %s can succeed without deriving the privacy key (blocks %s): the cipher keeps its all-zero "
+                      "default key" % (fn.split("::")[-1], pth), body.loc(), obligation=True)
         loc = [b for b in body.calls() if (callee_path(b.term) or "").endswith("SnmpPriv>::as_localized")]
         for b in loc:
             a = [prov.operand(x) for x in b.term["args"]]
